@@ -235,11 +235,103 @@ theorem readAtom_len {s r x} (h : readAtom s = .ok x r) : r.length < s.length :=
     · split at h <;> cases h; simp
 
 
-/-- lift a token-level failure to a verdict -/
-def failV {α} : Res α → Verdict
-  | .fail a => .fail a
-  | .panic p => .panic p
-  | _ => .ok
+/-- what the `<body>*` loop of `read_smiles` sees next (`read_body`: branch, split, union; then the
+    end of this `<smiles>`) -/
+inductive BodyStep
+  /-- `(` consumed -/
+  | openParen (rest : Str)
+  /-- `.` consumed -/
+  | dot (rest : Str)
+  /-- `<bond>? <atom>` consumed -/
+  | atom (b : BondKind) (k : AtomKind) (rest : Str)
+  /-- `<bond>? <rnum>` consumed -/
+  | ring (b : BondKind) (r : Rnum) (rest : Str)
+  /-- no body follows and the next character is `)` (consumed) -/
+  | close (rest : Str)
+  /-- no body follows: end of input -/
+  | eoi
+  | fail (at_ : Str)
+  | panic (site : String)
+  deriving DecidableEq, Repr
+
+def bodyStep (s : Str) : BodyStep :=
+  match s with
+  | '(' :: rest => .openParen rest
+  | '.' :: rest => .dot rest
+  | _ =>
+    match readAtom (readBond s).2 with
+    | .ok k rest => .atom (readBond s).1 k rest
+    | .fail a => .fail a
+    | .panic p => .panic p
+    | .absent =>
+      match readRnum (readBond s).2 with
+      | .ok r rest => .ring (readBond s).1 r rest
+      | .fail a => .fail a
+      | .panic p => .panic p
+      | .absent =>
+        if (readBond s).1 ≠ .elided then .fail (readBond s).2
+        else
+          match s with
+          | [] => .eoi
+          | ')' :: rest => .close rest
+          | _ => .fail s
+
+theorem bodyStep_openParen {s rest} (h : bodyStep s = .openParen rest) : s = '(' :: rest := by
+  unfold bodyStep at h
+  split at h
+  · cases h; rfl
+  · cases h
+  · repeat' split at h
+    all_goals cases h
+
+theorem bodyStep_dot {s rest} (h : bodyStep s = .dot rest) : s = '.' :: rest := by
+  unfold bodyStep at h
+  split at h
+  · cases h
+  · cases h; rfl
+  · repeat' split at h
+    all_goals cases h
+
+theorem bodyStep_close {s rest} (h : bodyStep s = .close rest) : s = ')' :: rest := by
+  unfold bodyStep at h
+  split at h
+  · cases h
+  · cases h
+  · repeat' split at h
+    all_goals first | (cases h; done) | skip
+    cases h; rfl
+
+theorem bodyStep_atom_len {s b k rest} (h : bodyStep s = .atom b k rest) : rest.length < s.length := by
+  unfold bodyStep at h
+  split at h
+  · cases h
+  · cases h
+  · split at h
+    · rename_i ha
+      cases h
+      have := readAtom_len ha
+      have := readBond_len s
+      omega
+    all_goals (repeat' split at h)
+    all_goals cases h
+
+theorem bodyStep_ring_len {s b r rest} (h : bodyStep s = .ring b r rest) : rest.length < s.length := by
+  unfold bodyStep at h
+  split at h
+  · cases h
+  · cases h
+  · split at h
+    · cases h
+    · cases h
+    · cases h
+    · split at h
+      · rename_i hr
+        cases h
+        have := readRnum_len hr
+        have := readBond_len s
+        omega
+      all_goals (repeat' split at h)
+      all_goals cases h
 
 /-- The reader transducer (plain events). -/
 def run (mode : Mode) (stack : List Nat) (s : Str) : List Event × Verdict :=
@@ -261,32 +353,30 @@ def run (mode : Mode) (stack : List Nat) (s : Str) : List Event × Verdict :=
     | '.' :: rest => run .needRoot stack rest
     | _ => run (.needAtom (readBond s).1) stack (readBond s).2
   | .body =>
-    match hs : s with
-    | '(' :: rest => run .afterOpen (0 :: stack) rest
-    | '.' :: rest => run .needRoot stack rest
-    | _ =>
-      match h : readAtom (readBond s).2 with
-      | .ok k rest => let q := run .body (bump stack) rest; (.extend (readBond s).1 k :: q.1, q.2)
-      | .fail a => ([], .fail a)
-      | .panic p => ([], .panic p)
-      | .absent =>
-        match h2 : readRnum (readBond s).2 with
-        | .ok r rest => let q := run .body stack rest; (.join (readBond s).1 r :: q.1, q.2)
-        | .fail a => ([], .fail a)
-        | .panic p => ([], .panic p)
-        | .absent =>
-          if (readBond s).1 ≠ .elided then ([], .fail (readBond s).2)
-          else
-            -- end of this `<smiles>`
-            match hs2 : s, stack with
-            | [], [_] => ([], .ok)
-            | ')' :: rest, l :: l' :: st => let q := run .body (l' :: st) rest; (.pop l :: q.1, q.2)
-            | _, _ => ([], .fail s)
+    match h : bodyStep s with
+    | .openParen rest => run .afterOpen (0 :: stack) rest
+    | .dot rest => run .needRoot stack rest
+    | .atom b k rest => let q := run .body (bump stack) rest; (.extend b k :: q.1, q.2)
+    | .ring b r rest => let q := run .body stack rest; (.join b r :: q.1, q.2)
+    | .close rest =>
+      (match stack with
+      | l :: l' :: st => let q := run .body (l' :: st) rest; (.pop l :: q.1, q.2)
+      | _ => ([], .fail s))
+    | .eoi =>
+      (match stack with
+      | [_] => ([], .ok)
+      | _ => ([], .fail []))
+    | .fail a => ([], .fail a)
+    | .panic p => ([], .panic p)
 termination_by 2 * s.length + mode.rank
 decreasing_by
   all_goals simp_wf
   all_goals (try have := readAtom_len h)
-  all_goals (try have := readRnum_len h2)
+  all_goals (try have := bodyStep_openParen h)
+  all_goals (try have := bodyStep_dot h)
+  all_goals (try have := bodyStep_close h)
+  all_goals (try have := bodyStep_atom_len h)
+  all_goals (try have := bodyStep_ring_len h)
   all_goals (try have := readBond_len s)
   all_goals (try simp [Mode.rank])
   all_goals (try omega)
@@ -294,7 +384,6 @@ decreasing_by
 
 /-- `read` of read.rs: events emitted (also on error, up to the error) and the verdict -/
 def read (s : Str) : List Event × Verdict := run .needRoot [0] s
-
 
 /-- events with the remaining-input lengths at the token boundaries (cursor = total − remaining) -/
 inductive LEvent
@@ -330,35 +419,34 @@ def runL (mode : Mode) (stack : List Nat) (s : Str) : List LEvent × Verdict :=
     | '.' :: rest => runL .needRoot stack rest
     | _ => runL (.needAtom (readBond s).1) stack (readBond s).2
   | .body =>
-    match hs : s with
-    | '(' :: rest => runL .afterOpen (0 :: stack) rest
-    | '.' :: rest => runL .needRoot stack rest
-    | _ =>
-      match h : readAtom (readBond s).2 with
-      | .ok k rest =>
-        let q := runL .body (bump stack) rest
-        (.extend (readBond s).1 k (readBond s).2.length rest.length :: q.1, q.2)
-      | .fail a => ([], .fail a)
-      | .panic p => ([], .panic p)
-      | .absent =>
-        match h2 : readRnum (readBond s).2 with
-        | .ok r rest =>
-          let q := runL .body stack rest
-          (.join (readBond s).1 r s.length (readBond s).2.length rest.length :: q.1, q.2)
-        | .fail a => ([], .fail a)
-        | .panic p => ([], .panic p)
-        | .absent =>
-          if (readBond s).1 ≠ .elided then ([], .fail (readBond s).2)
-          else
-            match hs2 : s, stack with
-            | [], [_] => ([], .ok)
-            | ')' :: rest, l :: l' :: st => let q := runL .body (l' :: st) rest; (.pop l :: q.1, q.2)
-            | _, _ => ([], .fail s)
+    match h : bodyStep s with
+    | .openParen rest => runL .afterOpen (0 :: stack) rest
+    | .dot rest => runL .needRoot stack rest
+    | .atom b k rest =>
+      let q := runL .body (bump stack) rest
+      (.extend b k (readBond s).2.length rest.length :: q.1, q.2)
+    | .ring b r rest =>
+      let q := runL .body stack rest
+      (.join b r s.length (readBond s).2.length rest.length :: q.1, q.2)
+    | .close rest =>
+      (match stack with
+      | l :: l' :: st => let q := runL .body (l' :: st) rest; (.pop l :: q.1, q.2)
+      | _ => ([], .fail s))
+    | .eoi =>
+      (match stack with
+      | [_] => ([], .ok)
+      | _ => ([], .fail []))
+    | .fail a => ([], .fail a)
+    | .panic p => ([], .panic p)
 termination_by 2 * s.length + mode.rank
 decreasing_by
   all_goals simp_wf
   all_goals (try have := readAtom_len h)
-  all_goals (try have := readRnum_len h2)
+  all_goals (try have := bodyStep_openParen h)
+  all_goals (try have := bodyStep_dot h)
+  all_goals (try have := bodyStep_close h)
+  all_goals (try have := bodyStep_atom_len h)
+  all_goals (try have := bodyStep_ring_len h)
   all_goals (try have := readBond_len s)
   all_goals (try simp [Mode.rank])
   all_goals (try omega)
@@ -382,30 +470,25 @@ def runDepth (mode : Mode) (stack : List Nat) (s : Str) : Nat :=
     | '.' :: rest => runDepth .needRoot stack rest
     | _ => runDepth (.needAtom (readBond s).1) stack (readBond s).2
   | .body =>
-    match hs : s with
-    | '(' :: rest => runDepth .afterOpen (0 :: stack) rest
-    | '.' :: rest => runDepth .needRoot stack rest
-    | _ =>
-      match h : readAtom (readBond s).2 with
-      | .ok k rest => max stack.length (runDepth .body (bump stack) rest)
-      | .fail a => stack.length
-      | .panic p => stack.length
-      | .absent =>
-        match h2 : readRnum (readBond s).2 with
-        | .ok r rest => max stack.length (runDepth .body stack rest)
-        | .fail a => stack.length
-        | .panic p => stack.length
-        | .absent =>
-          if (readBond s).1 ≠ .elided then stack.length
-          else
-            match hs2 : s, stack with
-            | ')' :: rest, l :: l' :: st => max (st.length + 2) (runDepth .body (l' :: st) rest)
-            | _, _ => stack.length
+    match h : bodyStep s with
+    | .openParen rest => runDepth .afterOpen (0 :: stack) rest
+    | .dot rest => runDepth .needRoot stack rest
+    | .atom b k rest => max stack.length (runDepth .body (bump stack) rest)
+    | .ring b r rest => max stack.length (runDepth .body stack rest)
+    | .close rest =>
+      (match stack with
+      | l :: l' :: st => max (st.length + 2) (runDepth .body (l' :: st) rest)
+      | _ => stack.length)
+    | _ => stack.length
 termination_by 2 * s.length + mode.rank
 decreasing_by
   all_goals simp_wf
   all_goals (try have := readAtom_len h)
-  all_goals (try have := readRnum_len h2)
+  all_goals (try have := bodyStep_openParen h)
+  all_goals (try have := bodyStep_dot h)
+  all_goals (try have := bodyStep_close h)
+  all_goals (try have := bodyStep_atom_len h)
+  all_goals (try have := bodyStep_ring_len h)
   all_goals (try have := readBond_len s)
   all_goals (try simp [Mode.rank])
   all_goals (try omega)
